@@ -415,6 +415,12 @@ impl Model {
         if self.orders[id].o.status != ACTIVE {
             return;
         }
+        // a price off the tick grid is not a valid price (C12): such a request is ignored
+        if let Some(np) = p {
+            if np % self.tick != 0 {
+                return;
+            }
+        }
         let cur = self.orders[id].o;
         match (p, v) {
             (None, None) => {}
@@ -516,20 +522,42 @@ impl Model {
     }
 
     /// Canonical digest of the complete (including hidden) model state, for belief-set de-duplication.
-    pub fn hidden_digest(&self) -> u64 {
+    /// `with_qtime = false` identifies states that differ only in the absolute queue times of resting orders
+    /// (sound when the clock is monotone: a later insertion always goes behind every resting order at its price,
+    /// so the future depends on the queue *order* only).
+    pub fn hidden_digest(&self, with_qtime: bool) -> u64 {
         let mut h = Fnv::new();
         h.u64(self.t);
         h.u64(self.trading as u64);
         h.u64(self.trade_vol as u64);
         for o in &self.orders {
             h.order(&o.o);
-            if o.o.status == ACTIVE {
+            if o.o.status == ACTIVE && with_qtime {
                 h.u64(o.qtime);
             }
         }
-        for bid in [true, false] {
-            for i in self.resting_ids(bid) {
-                h.u64(i as u64);
+        for side in [&self.bids, &self.asks] {
+            match side {
+                SideImpl::Fifo(v) => {
+                    for i in v {
+                        h.u64(*i as u64);
+                    }
+                }
+                SideImpl::Coll(c) => {
+                    // the maps themselves are the hidden state of the key-collision twin
+                    h.u64(c.vol as u64);
+                    for (k, v) in &c.orders {
+                        h.u64(k.0 as u64);
+                        h.u64(k.1);
+                        h.u64(*v as u64);
+                    }
+                    h.u64(u64::MAX - 1);
+                    for (k, v) in &c.volumes {
+                        h.u64(*k as u64);
+                        h.u64(v.0 as u64);
+                        h.u64(v.1 as u64);
+                    }
+                }
             }
             h.u64(u64::MAX);
         }
@@ -537,6 +565,7 @@ impl Model {
         if let Some(t) = self.trades.last() {
             h.trade(t);
         }
+        h.u64(self.poisoned.is_some() as u64);
         h.0
     }
 
